@@ -124,8 +124,10 @@ class ModbusBaseRequestHandler(asyncio.BaseProtocol):
         reset_frame = False
         while self.running:
             try:
-                units = self.server.context.slaves()
                 data = await self._recv_()  # this is an asyncio.Queue await, it will never fail
+                # the hosted units as they are now, not as they were when
+                # the handler started to wait for this data
+                units = self.server.context.slaves()
                 if isinstance(data, tuple):
                     data, *addr = data  # addr is populated when talking over UDP
                     # a datagram is a whole message: nothing left over from an
